@@ -605,6 +605,18 @@ pub fn build(env: &Env, w: &World, ins: &[Value], upto: usize, cleanup: bool) ->
             }
             "MintNFWrongType" => b.mint_non_fungible(r.unwrap().addr, [(NonFungibleLocalId::string("x").unwrap(), DATA0.clone())]),
             "MintRuid" => b.mint_ruid_non_fungible(r.unwrap().addr, (0..n).map(|_| DATA0.clone()).collect::<Vec<_>>()),
+            "MintSingleRuid" => b.call_method(
+                r.unwrap().addr,
+                NON_FUNGIBLE_RESOURCE_MANAGER_MINT_SINGLE_RUID_IDENT,
+                NonFungibleResourceManagerMintSingleRuidManifestInput { entry: manifest_decode(&manifest_encode(&DATA0).unwrap()).unwrap() },
+            ),
+            // non-fungible vault take / burn / recall by AMOUNT
+            "WithdrawNFAmount" => b.withdraw_from_account(acct.unwrap().addr, r.unwrap().addr, amt(r.unwrap())),
+            "BurnNFAmountInAccount" => b.burn_in_account(acct.unwrap().addr, r.unwrap().addr, amt(r.unwrap())),
+            "RecallNFAmount" => {
+                let v = w.vaults[&(acct.unwrap().name, rname.to_string())];
+                b.recall(InternalAddress::new_or_panic(v.0), amt(r.unwrap()))
+            }
             "Burn" => {
                 live.retain(|x| *x != bk(&i["k"]).0);
                 b.burn_resource(bk(&i["k"]))
